@@ -9,7 +9,7 @@ use rustemo::{
 use rustemo_compiler::verif::{Dump, VAction, VRecognizer};
 use std::cell::Cell;
 
-pub const MAXT: usize = 64;
+pub const MAXT: usize = 128;
 
 thread_local! {
     static LAYOUT: Cell<Option<u16>> = const { Cell::new(None) };
